@@ -45,7 +45,108 @@ pub fn lid_disagrees(v: &[u8]) -> Option<String> {
     } else { None }
 }
 
-pub fn locale_disagrees(_v: &[u8]) -> Option<String> { None }
+
+// ---- extensions: executable mirror of the recogniser ext_parse (contracts/verus/locale_spec.rs) ----
+fn u_shaped(s: &[u8]) -> bool { s.len() == 2 || x_is_utype(s) }
+fn kv_fold(t: &[&[u8]], is_key: fn(&[u8]) -> bool) -> std::collections::BTreeMap<Vec<u8>, Vec<Vec<u8>>> {
+    let mut m = std::collections::BTreeMap::new();
+    let mut cur: Option<Vec<u8>> = None;
+    for s in t {
+        if is_key(s) { cur = Some(lower(s)); m.insert(lower(s), vec![]); }
+        else if let Some(k) = &cur { if lower(s) != b"true" { m.get_mut(k).unwrap().push(lower(s)); } }
+    }
+    m
+}
+fn len2(s: &[u8]) -> bool { s.len() == 2 }
+fn push_kv(out: &mut Vec<u8>, m: &std::collections::BTreeMap<Vec<u8>, Vec<Vec<u8>>>) {
+    for (k, vs) in m { out.push(b'-'); out.extend(k); for v in vs { out.push(b'-'); out.extend(v); } }
+}
+/// Ok(canonical extension string) or Err
+pub fn ref_ext(t: &[&[u8]]) -> Result<String, ()> {
+    let (mut u, mut tt, mut x): (Option<Vec<u8>>, Option<Vec<u8>>, Option<Vec<u8>>) = (None, None, None);
+    let mut i = 0;
+    while i < t.len() {
+        let s = t[i];
+        if s.is_empty() { i += 1; continue; }
+        if s.len() > 1 { return Err(()); }
+        let body = &t[i + 1..];
+        match x_lower_b(s[0]) {
+            b'u' => {
+                if u.is_some() { return Err(()); }
+                let mut e = 0;
+                while e < body.len() && u_shaped(body[e]) { e += 1; }
+                if body[..e].iter().any(|s| s.len() == 2 && !x_is_ukey(s)) { return Err(()); }
+                let fk = body[..e].iter().position(|s| s.len() == 2).unwrap_or(e);
+                let mut attrs: Vec<Vec<u8>> = body[..fk].iter().map(|s| lower(s)).collect();
+                attrs.sort(); attrs.dedup();
+                let kw = kv_fold(&body[..e], len2);
+                let mut out = vec![];
+                if !(attrs.is_empty() && kw.is_empty()) {
+                    out.extend(b"-u");
+                    for a in attrs { out.push(b'-'); out.extend(a); }
+                    push_kv(&mut out, &kw);
+                }
+                u = Some(out);
+                i = i + 1 + e;
+            }
+            b't' => {
+                if tt.is_some() { return Err(()); }
+                let has_lang = !body.is_empty() && x_lang_shaped(body[0]);
+                let mut out_lang = None;
+                let mut f0 = 0;
+                if has_lang {
+                    match ref_lid(body, true) { Ok((s, n)) => { out_lang = Some(s); f0 = n; } Err(_) => return Err(()) }
+                    if f0 < body.len() && x_lang_shaped(body[f0]) { return Err(()); }
+                }
+                let mut e = f0;
+                if f0 < body.len() && x_is_tkey(body[f0]) {
+                    while e < body.len() && body[e].len() != 1 { e += 1; }
+                    if body[f0..e].iter().any(|s| !x_is_tkey(s) && !x_is_utype(s)) { return Err(()); }
+                }
+                let fields = kv_fold(&body[f0..e], |s| x_is_tkey(s));
+                let mut out = vec![];
+                if out_lang.is_some() || !fields.is_empty() {
+                    out.extend(b"-t");
+                    if let Some(l) = out_lang { out.push(b'-'); out.extend(l.as_bytes()); }
+                    push_kv(&mut out, &fields);
+                }
+                tt = Some(out);
+                i = i + 1 + e;
+            }
+            b'x' => {
+                if body.iter().any(|s| !x_is_private(s)) { return Err(()); }
+                let mut tags: Vec<Vec<u8>> = body.iter().map(|s| lower(s)).collect();
+                tags.sort();
+                let mut out = vec![];
+                if !tags.is_empty() { out.extend(b"-x"); for g in tags { out.push(b'-'); out.extend(g); } }
+                x = Some(out);
+                i = t.len();
+            }
+            _ => return Err(()),
+        }
+    }
+    let mut out = vec![];
+    out.extend(tt.unwrap_or_default()); out.extend(u.unwrap_or_default()); out.extend(x.unwrap_or_default());
+    Ok(String::from_utf8(out).unwrap())
+}
+
+pub fn ref_locale(v: &[u8]) -> Result<String, ()> {
+    let t = split(v);
+    let (id, n) = ref_lid(&t, true).map_err(|_| ())?;
+    Ok(id + &ref_ext(&t[n..])?)
+}
+
+pub fn locale_disagrees(v: &[u8]) -> Option<String> {
+    let want = ref_locale(v);
+    let got = std::panic::catch_unwind(|| unic_locale_impl::Locale::from_bytes(v).map(|l| l.to_string()));
+    let got2: Result<String, ()> = match &got { Ok(Ok(s)) => Ok(s.clone()), _ => Err(()) };
+    if got.is_err() {
+        return Some(format!("Locale::from_bytes(b\"{}\") PANICKED; the grammar of C03 gives {:?}", crate::esc(v), want));
+    }
+    if want != got2 {
+        Some(format!("Locale::from_bytes(b\"{}\") = {:?}, the recogniser of C03 gives {:?}", crate::esc(v), got.unwrap().map_err(|e| format!("{:?}", e)), want))
+    } else { None }
+}
 
 /// boundary-class token alphabet of C01/C02's quantifier
 pub fn alphabet() -> Vec<Vec<u8>> {
@@ -80,6 +181,7 @@ pub fn search(what: &str, _seed: u64) -> Option<(Vec<u8>, String)> {
         "locale" => locale_disagrees,
         _ => return None,
     };
+    if what == "locale" { return search_locale(); }
     // sequences of up to 4 subtags: first from a small set of heads, rest from the alphabet
     let heads: Vec<Vec<u8>> = vec![b"en".to_vec(), b"und".to_vec(), b"EN".to_vec(), b"e".to_vec(), b"root".to_vec()];
     let mut buf: Vec<u8> = vec![];
@@ -95,6 +197,26 @@ pub fn search(what: &str, _seed: u64) -> Option<(Vec<u8>, String)> {
                 while p < n { idx[p] += 1; if idx[p] < a.len() { break; } idx[p] = 0; p += 1; }
                 if p == n { break; }
             }
+        }
+    }
+    None
+}
+
+/// locale search: "en" followed by up to 5 subtags from an extension-oriented alphabet
+fn search_locale() -> Option<(Vec<u8>, String)> {
+    let a: Vec<&[u8]> = vec![b"u", b"t", b"x", b"a", b"U", b"ca", b"nu", b"h0", b"m0", b"1a", b"a1", b"en", b"de", b"US", b"Latn", b"latn",
+        b"macos", b"1996", b"true", b"TRUE", b"buddhist", b"gregory", b"hybrid", b"abc", b"ab1", b"toolongsubtag", b"", b"!", b"ux", b"foo", b"zz9", b"419", b"und", b"x1"];
+    let mut buf: Vec<u8> = vec![];
+    for n in 1..=5usize {
+        let mut idx = vec![0usize; n];
+        loop {
+            buf.clear();
+            buf.extend(b"en");
+            for i in &idx { buf.push(b'-'); buf.extend(a[*i]); }
+            if let Some(d) = locale_disagrees(&buf) { return Some((buf.clone(), d)); }
+            let mut p = 0;
+            while p < n { idx[p] += 1; if idx[p] < a.len() { break; } idx[p] = 0; p += 1; }
+            if p == n { break; }
         }
     }
     None
